@@ -108,6 +108,21 @@ def jsonTensorAttr (attrs : Json) (name : String) : Option (Option DT) :=
     | none => some none
   | _ => some none
 
+/-- a tensor attribute the decoder must refuse: an element type it cannot represent, or a payload whose
+element count is not the product of the declared extents (C12); `none` when the attribute is absent -/
+def tensorAttrUndecodable (attrs : Json) (name : String) : Bool :=
+  match attrs with
+  | .arr a => match a.toList.find? (fun x => getStr x "name" == name) with
+    | some x =>
+      let t := getObj x "t"
+      let dt := getStr t "dt"
+      let shape := jsonInts (getArr t "shape")
+      let n := (getArr t "data").size + (getArr t "bits").size
+      !(["f32", "f64", "i8", "i16", "i32", "i64", "u8", "u16", "u32", "u64", "bool"].contains dt) ||
+        shape.any (· < 0) || (shape.foldl (· * ·) 1) != (n : Int)
+    | none => false
+  | _ => false
+
 def runConstOp (op : String) (attrs : Json) (ins : List (Option DT)) : Answer :=
   match op, ins with
   | "Cast", [some X] =>
@@ -160,6 +175,9 @@ def runConstOp (op : String) (attrs : Json) (ins : List (Option DT)) : Answer :=
     else if names.length == 1 && names != ["value"] then
       -- "unsupported attributes are refused with an error": an attribute of another name must not be ignored
       { model := .ofErr .attr, spec := { domain := "mustRefuse" }, tags := ["attr-name"] }
+    else if tensorAttrUndecodable attrs "value" then
+      -- a value tensor the decoder refuses: Init reports it (never the default in its place)
+      { model := .ofErr .invalidTensor, spec := { domain := "mustRefuse" }, tags := ["value-undecodable"] }
     else
       match jsonTensorAttr attrs "value" with
       | none => { model := { status := "unmodelled" } }
